@@ -21,7 +21,49 @@ pub enum ChildOutcome {
     CpuLimit,
     /// wall-clock watchdog: inconclusive
     Watchdog,
+    /// every thread asleep, no CPU time consumed for a long stretch, no child processes: the call
+    /// waits for something that cannot happen (a lock it already holds)
+    Blocked,
 }
+
+/// (process state summary, CPU ticks) of a process from /proc: Some((all threads sleeping, utime+stime, has live children))
+pub fn proc_idle_probe(pid: u32) -> Option<(bool, u64, bool)> {
+    let parse = |txt: &str| -> Option<(char, u64)> {
+        let rest = &txt[txt.rfind(')')? + 1..];
+        let f: Vec<&str> = rest.split_whitespace().collect();
+        let state = f.first()?.chars().next()?;
+        let ticks = f.get(11)?.parse::<u64>().ok()? + f.get(12)?.parse::<u64>().ok()?;
+        Some((state, ticks))
+    };
+    let mut all_sleeping = true;
+    let mut ticks = 0u64;
+    let mut children = false;
+    let mut seen = false;
+    for e in std::fs::read_dir(format!("/proc/{}/task", pid)).ok()?.flatten() {
+        let tdir = e.path();
+        if let Ok(txt) = std::fs::read_to_string(tdir.join("stat")) {
+            if let Some((st, t)) = parse(&txt) {
+                seen = true;
+                ticks += t;
+                if st != 'S' {
+                    all_sleeping = false;
+                }
+            }
+        }
+        if let Ok(ch) = std::fs::read_to_string(tdir.join("children")) {
+            if !ch.trim().is_empty() {
+                children = true;
+            }
+        }
+    }
+    if seen {
+        Some((all_sleeping, ticks, children))
+    } else {
+        None
+    }
+}
+/// how long a child may sit fully asleep without consuming CPU before it is declared blocked
+pub const BLOCKED_MS: u128 = 15_000;
 
 static COUNTER: std::sync::atomic::AtomicU64 = std::sync::atomic::AtomicU64::new(0);
 
@@ -76,6 +118,10 @@ pub fn run_batch(prop: &str, sub: &str, cases: &[Vec<u32>], cpu_secs: u64, stack
         let t0 = Instant::now();
         let wall_limit = Duration::from_secs(cpu_secs * 20 + 120);
         let mut watchdog = false;
+        let mut blocked = false;
+        let mut last_ticks = u64::MAX;
+        let mut last_progress = Instant::now();
+        let mut polls = 0u64;
         let status = loop {
             match child.try_wait() {
                 Ok(Some(st)) => break st,
@@ -84,6 +130,24 @@ pub fn run_batch(prop: &str, sub: &str, cases: &[Vec<u32>], cpu_secs: u64, stack
                         let _ = child.kill();
                         watchdog = true;
                         break child.wait().expect("wait");
+                    }
+                    polls += 1;
+                    if polls % 250 == 0 {
+                        // twice a second: has the child made any progress?
+                        match proc_idle_probe(child.id()) {
+                            Some((true, ticks, false)) if ticks == last_ticks => {
+                                if last_progress.elapsed().as_millis() > BLOCKED_MS {
+                                    let _ = child.kill();
+                                    blocked = true;
+                                    break child.wait().expect("wait");
+                                }
+                            }
+                            Some((_, ticks, _)) => {
+                                last_ticks = ticks;
+                                last_progress = Instant::now();
+                            }
+                            None => last_progress = Instant::now(),
+                        }
                     }
                     std::thread::sleep(Duration::from_millis(2));
                 }
@@ -114,7 +178,9 @@ pub fn run_batch(prop: &str, sub: &str, cases: &[Vec<u32>], cpu_secs: u64, stack
         // The child stopped before finishing the batch
         let culprit = last_started.unwrap_or(done);
         let sig = status.signal();
-        let outcome = if watchdog {
+        let outcome = if blocked {
+            ChildOutcome::Blocked
+        } else if watchdog {
             ChildOutcome::Watchdog
         } else if sig == Some(libc::SIGXCPU) || (sig == Some(libc::SIGKILL)) {
             ChildOutcome::CpuLimit
